@@ -346,7 +346,7 @@ def fixed_displaced_classifier(inst, fixed, R, f):
     r0 = inst.rects[f]
     fam = 'cluster'
     for g in fixed:
-        if g != f:
+        if g != f and 0 <= g < n:     # `fixed` may name indices beyond the set (documented as ignored)
             q = inst.rects[g]
             ox = F(min(r0[1], q[1]) - max(r0[0], q[0]), s) + 2 * xb
             oy = F(min(r0[3], q[3]) - max(r0[2], q[2]), s) + 2 * yb
